@@ -20,7 +20,8 @@ size_t g_parsed;      /* ghost: records the (assumed) parse delivers */
 int g_meta_freed;     /* ghost: meta_free calls */
 #ifndef VERIF_NATIVE
 void meta_free(meta * m) { g_meta_freed++; free(m); }
-size_t scan_meta_line(const char * c) { size_t r; return r; }
+bool g_first_meta;    /* ghost: does the text start with a metadata line (scan_meta_line, re2c: by contract) */
+size_t scan_meta_line(const char * c) { return g_first_meta ? 1 : 0; }
 
 #define ALL_SIZES(X) X(abbreviation_stack) X(citation_stack) X(definition_stack) X(footnote_stack) X(glossary_stack) X(header_stack) X(link_stack) X(metadata_stack) X(table_stack)
 #define FRESH_STACK(s) && __CPROVER_is_fresh(__CPROVER_return_value->s, sizeof(stack))
@@ -53,8 +54,8 @@ size_t g_old_sizes[9]; token * g_old_root; size_t g_old_meta; bool g_had_tree;
 /* g_had_tree: the engine held a parse tree of the current text -> nothing is re-parsed, the stack is left alone;
  * otherwise either the first line is not metadata (nothing touched) or the stack holds exactly one parse's records */
 #define POST_hasmeta (e->root == g_old_root && SIZES_SAME(e) \
-	&& (g_had_tree ? e->metadata_stack->size == g_old_meta : (e->metadata_stack->size == g_old_meta || e->metadata_stack->size == g_parsed)) \
-	&& (e->metadata_stack->size == g_old_meta || g_meta_freed == (int)g_old_meta))
+	&& ((!g_first_meta || g_had_tree) ? (e->metadata_stack->size == g_old_meta && g_meta_freed == 0) \
+		: (e->metadata_stack->size == g_parsed && g_meta_freed == (int)g_old_meta)))
 CONTRACT(bool, mmd_engine_has_metadata, (mmd_engine * e, size_t * end), PRE_hasmeta, POST_hasmeta,
 	__CPROVER_assigns(*end, g_meta_freed, e->root, e->recurse_depth, e->abbreviation_stack->size, e->citation_stack->size, e->definition_stack->size, e->footnote_stack->size,
 		e->glossary_stack->size, e->header_stack->size, e->link_stack->size, e->metadata_stack->size, e->table_stack->size)
@@ -78,6 +79,7 @@ void h_hasmeta(void) {
 	g_old_root = e->root;
 	{ IN(size_t, parsed); ASSUME(parsed <= 2); g_parsed = parsed; }
 	g_meta_freed = 0;
+	{ IN(bool, fm); g_first_meta = fm; }
 	IN(bool, want_end); size_t endv = 0; size_t * end = want_end ? &endv : NULL;
 	CALLR(bool, mmd_engine_has_metadata(e, end), PRE_hasmeta, POST_hasmeta)
 	REACH();
